@@ -186,7 +186,9 @@ Theorem C08_smarts_sources_pinned :
                ("x"%string, "heteroatoms"%string); ("*"%string, "hybridization"%string)] /\
   validate_tests = [("Gt"%string, 14); ("Lt"%string, 0)] /\ hybridization_tests = [("Gt"%string, 4); ("Lt"%string, 1)] /\
   ring_sizes_tests = [("Lt"%string, 3); ("NotEq"%string, 0)] /\ charge_tests = [("Gt"%string, 4); ("Lt"%string, -4)] /\
-  st_replace_dict = TokenTables.replace_dict /\ st_not_dict = TokenTables.not_dict.
+  st_replace_dict = TokenTables.replace_dict /\ st_not_dict = TokenTables.not_dict /\
+  validate_guards = ["value is None"%string; "isinstance(value, int)"%string; "isinstance(value, (tuple, list))"%string] /\
+  hybridization_guards = validate_guards /\ ring_sizes_guards = validate_guards.
 Proof. exact smarts_sources_pinned. Qed.
 Print Assumptions C08_smarts_sources_pinned.
 
@@ -256,3 +258,15 @@ Theorem C08_prim_step_spelled : forall t vs out, In t ["D"; "h"; "r"; "x"; "z"]%
   prim_step out (spell_prim t vs) = Ok (set_prim out t vs).
 Proof. exact prim_step_spelled. Qed.
 Print Assumptions C08_prim_step_spelled.
+
+(* ---------------------------------------------------------------------------------------------------------------- *)
+(* the query API setters (neighbors / heteroatoms / implicit_hydrogens with lo = 0, hi = 14): None = unconstrained; a bare int
+   in range is the one-value constraint, 0 included; an accepted list is stored with exactly its members *)
+Theorem C08_validate_api_spec : forall lo hi,
+  validate_api lo hi None = Ok [] /\
+  (forall v, lo <= v <= hi -> validate_api lo hi (Some (IInt v)) = Ok [v]) /\
+  (forall v, v < lo \/ hi < v -> validate_api lo hi (Some (IInt v)) = Err ValueError) /\
+  (forall l r, validate_api lo hi (Some (IList l)) = Ok r ->
+     (forall x, In x r <-> In x l) /\ (forall x, In x l -> lo <= x <= hi) /\ nodup_z l = true).
+Proof. exact validate_api_spec. Qed.
+Print Assumptions C08_validate_api_spec.
